@@ -14,7 +14,7 @@ use super::c14::world::{coinbase, deliver_add, deliver_remove, mk_tx, panic_msg}
 use crate::common::*;
 use lightning_signer::bitcoin::bip32::DerivationPath;
 use lightning_signer::bitcoin::{Block, Network, OutPoint, Transaction, Txid};
-use lightning_signer::channel::{ChannelBase, ChannelId, ChannelSlot};
+use lightning_signer::channel::{ChannelBase, ChannelId, ChannelSlot, CommitmentType};
 use lightning_signer::node::{Node, NodeConfig, NodeServices};
 use lightning_signer::persist::Persist;
 use lightning_signer::policy::simple_validator::SimpleValidatorFactory;
@@ -37,6 +37,8 @@ const NCH: u64 = 4;
 pub fn fid(d: u64) -> u64 { 10 * d + 1 }
 pub fn did(d: u64) -> u64 { 10 * d + 2 }
 pub fn mid(d: u64) -> u64 { 10 * d + 3 }
+fn ucid(d: u64) -> u64 { 10 * d + 8 } // counterparty commitment paying us a to_remote output
+fn scid(d: u64) -> u64 { 10 * d + 9 } // sweep of that output
 fn uid(d: u64) -> u64 { 10 * d + 4 }
 fn sid(d: u64) -> u64 { 10 * d + 5 }
 fn tid(d: u64) -> u64 { 10 * d + 6 } // spend of the HTLC output of U_d
@@ -125,6 +127,8 @@ impl W15 {
         let fo = OutPoint::new(f.compute_txid(), 0);
         let mut setup = make_test_channel_setup();
         setup.funding_outpoint = fo;
+        // channel type per channel: odd ids static-remotekey, even ids anchors with zero-fee HTLC transactions
+        setup.commitment_type = if d % 2 == 0 { CommitmentType::AnchorsZeroFeeHtlc } else { CommitmentType::StaticRemoteKey };
         let id = chan_id(d);
         let was_ready = matches!(self.node.get_channel(&id).ok().map(|s| matches!(&*s.lock().unwrap(), ChannelSlot::Ready(_))), Some(true));
         self.node.setup_channel(id.clone(), None, setup.clone(), &DerivationPath::master()).map_err(|e| e.message().to_string())?;
@@ -144,14 +148,14 @@ impl W15 {
             // holder commitment 7 with our output and one offered HTLC (which the node must sweep through a
             // second-level transaction), known to the enforcement state and persisted
             let commit_num = 7u64;
+            let cp_point = lightning_signer::util::test_utils::key::make_test_pubkey(12);
             let (to_holder, to_cp, feerate) = (1_000_000u64 + d, 1_950_000u64, 1000u32);
             let offered = vec![HTLCInfo2 { value_sat: 30_000 + d, payment_hash: PaymentHash([d as u8; 32]), cltv_expiry: 100 }];
             let persister = self.persister.clone();
             let node_id = self.node.get_id();
             self.node.with_channel(&id, |chan| {
                 chan.set_next_holder_commit_num_for_testing(commit_num + 1);
-                let p = chan.get_per_commitment_point(commit_num)?;
-                chan.set_next_counterparty_commit_num_for_testing(commit_num + 1, p);
+                chan.set_next_counterparty_commit_num_for_testing(commit_num + 1, cp_point);
                 chan.enforcement_state.current_holder_commit_info =
                     Some(CommitmentInfo2::new(false, to_cp, to_holder, offered.clone(), vec![], feerate));
                 persister.update_channel(&node_id, chan).unwrap();
@@ -169,6 +173,16 @@ impl W15 {
             let s = mk_tx(vec![OutPoint::new(u.compute_txid(), our)], 1, 230 + d as u32);
             let t = mk_tx(vec![OutPoint::new(u.compute_txid(), hv)], 1, 240 + d as u32);
             let v = mk_tx(vec![OutPoint::new(t.compute_txid(), 0)], 1, 250 + d as u32);
+            // the counterparty's commitment (no HTLC): our to_remote output is p2wpkh (static-remotekey) or the
+            // anchored p2wsh (anchors); the harness knows which output it built as ours
+            let (uc_to_holder, uc_to_cp) = (1_100_000u64 + d, 1_880_000u64);
+            let uc = self.node.with_channel(&id, |chan| Ok(chan.make_counterparty_commitment_tx(&cp_point, commit_num, feerate, uc_to_holder, uc_to_cp, vec![])))
+                .unwrap().trust().built_transaction().transaction.clone();
+            let uc_our = uc.output.iter().position(|o| o.value.to_sat() == uc_to_holder).unwrap() as u32;
+            self.kinds.insert(ucid(d), format!("c{}/-", uc_our));
+            let sc = mk_tx(vec![OutPoint::new(uc.compute_txid(), uc_our)], 1, 260 + d as u32);
+            self.put(ucid(d), uc);
+            self.put(scid(d), sc);
             self.put(uid(d), u);
             self.put(sid(d), s);
             self.put(tid(d), t);
@@ -270,9 +284,11 @@ impl W15 {
     fn burial_depth(&self, d: u64) -> Option<usize> {
         let n = self.chain.len();
         let depth = |id: u64| self.chain.iter().position(|b| b.contains(&id)).map(|i| n - i);
+        // all outputs the harness built as the node's are swept: holder commitment (our delayed output, the HTLC,
+        // its second-level output) or counterparty commitment (our to_remote output)
         let swept = match (depth(uid(d)), depth(sid(d)), depth(tid(d)), depth(vid(d))) {
             (Some(a), Some(b), Some(c), Some(e)) => Some(a.min(b).min(c).min(e)),
-            _ => None,
+            _ => match (depth(ucid(d)), depth(scid(d))) { (Some(a), Some(b)) => Some(a.min(b)), _ => None },
         };
         [depth(did(d)), depth(mid(d)), swept].into_iter().flatten().max()
     }
@@ -284,9 +300,11 @@ impl W15 {
         let deep = |x: Option<usize>| x.map(|k| k >= MIN_DEPTH_SPEC).unwrap_or(false);
         // unilateral close with all of the node's outputs swept: U_d, the sweep of our output S_d, the HTLC
         // spend T_d and the second-level sweep V_d are all on the surviving chain; the latest of them counts
+        // all outputs the harness built as the node's are swept: holder commitment (our delayed output, the HTLC,
+        // its second-level output) or counterparty commitment (our to_remote output)
         let swept = match (depth(uid(d)), depth(sid(d)), depth(tid(d)), depth(vid(d))) {
             (Some(a), Some(b), Some(c), Some(e)) => Some(a.min(b).min(c).min(e)),
-            _ => None,
+            _ => match (depth(ucid(d)), depth(scid(d))) { (Some(a), Some(b)) => Some(a.min(b)), _ => None },
         };
         deep(depth(did(d))) || deep(depth(mid(d))) || deep(swept)
     }
@@ -356,6 +374,11 @@ impl Group for C15 {
             mk("init|new 1|setup 1|add 11|add 14|add 15 16|add 17|remove 17|forget 1|addn 99|heartbeat|addn 1|heartbeat|addn 5|heartbeat"),
             // the same with the sweep re-mined: pruned exactly at depth 100
             mk("init|new 1|setup 1|add 11|add 14|add 15 16|add 17|remove 17|add 17|forget 1|addn 98|heartbeat|addn 1|heartbeat|addn 1|heartbeat"),
+            // anchors channel closed by the counterparty's commitment, our to_remote output NOT swept: must survive (seeded change C15/2 of round 2)
+            mk("init|new 2|setup 2|add 21|add 28|forget 2|addn 100|heartbeat|addn 5|heartbeat"),
+            // the same swept: pruned when the sweep is 100 deep; static-remotekey channel likewise
+            mk("init|new 2|setup 2|add 21|add 28|add 29|forget 2|addn 98|heartbeat|addn 1|heartbeat|addn 1|heartbeat"),
+            mk("init|new 1|setup 1|add 11|add 18|forget 1|addn 100|heartbeat|add 19|addn 99|heartbeat"),
             // unilateral close, swept later; double spend on another channel
             mk("init|new 1|new 2|setup 1|setup 2|add 11 22|add 14|forget 1|forget 2|addn 50|add 15 16|add 17|addn 60|heartbeat|addn 45|heartbeat"),
         ];
@@ -410,13 +433,16 @@ impl Group for C15 {
             let forget_early = rng.chance(1, 3);
             if forget_early { push(&mut w, &mut ops, format!("forget {}", d)); }
             push(&mut w, &mut ops, addl(&[fid(d)]));
+            let cp_close = rng.chance(1, 3); // closed by the counterparty's commitment: only our to_remote output to sweep
             let mut order = vec![sid(d), tid(d)];
             if rng.chance(1, 2) { order.swap(0, 1); }
             let pos = order.iter().position(|x| *x == tid(d)).unwrap() + 1 + rng.below((order.len() - order.iter().position(|x| *x == tid(d)).unwrap()) as u64) as usize;
             order.insert(pos.min(order.len()), vid(d));
-            let mut first = vec![uid(d)];
+            if cp_close { order = vec![scid(d)]; }
+            let mut first = vec![if cp_close { ucid(d) } else { uid(d) }];
             if rng.chance(1, 3) { first.push(order.remove(0)); }
             push(&mut w, &mut ops, addl(&first));
+            if cp_close && rng.chance(1, 3) { order.clear(); } // our output stays unswept: must never be pruned
             let mut sweep_blocks = 0u64;
             while !order.is_empty() {
                 if rng.chance(1, 4) { push(&mut w, &mut ops, "add".into()); sweep_blocks += 1; }
@@ -430,7 +456,7 @@ impl Group for C15 {
                 0 => {}
                 r => {
                     // undo a suffix of the sweep blocks
-                    let k = rng.range(1, sweep_blocks.min(3));
+                    let k = rng.range(1, sweep_blocks.max(1).min(3));
                     let mut removed: Vec<Vec<u64>> = Vec::new();
                     for _ in 0..k {
                         let blk = w.chain.last().unwrap().clone();
@@ -485,7 +511,8 @@ impl Group for C15 {
                         let mut cand = Vec::new();
                         if !has(fid(c)) && !has(did(c)) && !inb(&blk, did(c)) { cand.push(fid(c)); }
                         if !has(fid(c)) && !has(did(c)) && !inb(&blk, fid(c)) { cand.push(did(c)); }
-                        if (has(fid(c)) || inb(&blk, fid(c))) && !has(mid(c)) && !has(uid(c)) { cand.push(if rng.chance(1, 2) { mid(c) } else { uid(c) }); }
+                        if (has(fid(c)) || inb(&blk, fid(c))) && !has(mid(c)) && !has(uid(c)) && !has(ucid(c)) { cand.push(*rng.pick(&[mid(c), uid(c), ucid(c)])); }
+                        if has(ucid(c)) && !has(scid(c)) { cand.push(scid(c)); }
                         if (has(uid(c)) || inb(&blk, uid(c))) && !has(sid(c)) { cand.push(sid(c)); }
                         if (has(uid(c)) || inb(&blk, uid(c))) && !has(tid(c)) { cand.push(tid(c)); }
                         if has(tid(c)) && !has(vid(c)) { cand.push(vid(c)); }
